@@ -18,7 +18,8 @@ def run(ctx):
                        "one transition. Non-trivial = every node (each has its own position); distinct = node numbers.")
     book = os.path.join(ctx.work, "book.json")
     walk = os.path.join(ctx.work, "bookwalk.json")
-    h = ctx.harness(["book-export", "--out", book, "--walk", walk])
+    raw = os.path.join(ctx.work, "bookraw.json")
+    h = ctx.harness(["book-export", "--out", book, "--walk", walk, "--raw", raw])
     for pn in h["panics"]:
         ctx.violation("panic while walking the book", pn, {"kind": "panic", "panic": pn})
     for m in h["mismatches"]:
@@ -65,6 +66,31 @@ def run(ctx):
     ctx.cov["traces_validated_against_impl"] += len(w)
     ctx.cov["exhaustive"] = True
     ctx.cov["steps"].append({"step": "book", "nodes": cnt["nodes"], "edges": cnt["edges"], "spec_states": res["distinct"]})
+    # layer S: the decoder over the raw table (spec/BookSys.tla).  Every cursor the public iterator can reach from the
+    # root or the empty book is one state.  "Stays inside the table" (InTable) and "terminates" (Decreasing) are C17's
+    # own words, decided on the raw words the code reads; the structural statements (room for the sibling step, a list
+    # ends at its own terminator, move words, decoded lists = exported lists) are the binding of the model to the code
+    # and to the encoder: disagreements there are drift.
+    rs = ctx.tlc("BookSys", "BookSys.cfg", env={"VERIF_BOOK": book, "VERIF_BOOKRAW": raw}, workers=4, timeout=900, name="booksys")
+    notes = list(ctx.tlc_lines(rs["out_path"], "BOOKSYS"))
+    for v in rs["violated"][:3]:
+        ctx.violation("layer-S-book-decoder: " + v[:100], {"tlc": v}, {"kind": "tlc", "module": "BookSys", "cfg": "BookSys.cfg"})
+    if not rs["violated"] and rs["errors"]:
+        raise ToolError("BookSys model check failed: %s" % rs["errors"][:3])
+    # the one note known on the pinned tree: the first-encoded root record (1. Nc3, 95 cells) has no terminator below it,
+    # `checked_sub` ends the root list there and the record is never yielded - an observation (section 11), no property
+    # speaks about the completeness of the book
+    unexpected = [n for n in notes if not (n["kind"] == "Room" and n["cur"] == n["cell"] and n["lo"] == 0)]
+    ctx.cov["model_drift"] += len(unexpected)
+    ctx.cov["states"] += rs["distinct"]
+    ctx.cov["transitions"] += rs["generated"]
+    ctx.cov["steps"].append({"step": "layer S decoder over the raw table", "cursor_states": rs["distinct"], "table_cells": cnt.get("cells"),
+                             "records_cut_off_at_the_table_start": len(notes) - len(unexpected), "drift": len(unexpected),
+                             "drift_kinds": sorted({n["kind"] for n in unexpected})})
+    if unexpected:
+        ctx.note("layer S (BookSys) and the exported trie / table layout disagree at %d cursor states (%s): model drift, not a violation"
+                 % (len(unexpected), ", ".join(sorted({n["kind"] for n in unexpected}))))
+    os.remove(rs["out_path"])
     depths = sorted({e["depth"] for e in w if e["node"] not in {x["node"] for x in w if False}})
     leaf_nodes = {i + 1 for i, n in enumerate(json.load(open(book))["nodes"]) if not n}
     leaf_depths = sorted({e["depth"] for e in w if e["node"] in leaf_nodes})
